@@ -161,7 +161,18 @@ def _random_loc(rng, length, circ):
         s = rng.randrange(0, length)
         e = rng.randrange(s + 1, length + 1)
         return {"parts": [[s, e]], "strand": strand}
-    if kind < 0.75 and circ:
+    if kind < 0.6 and circ and length >= 12:
+        # over the origin in several exons: one or two exons on either side, the inner ones meeting at the origin
+        e = rng.randrange(1, 3)
+        s = rng.randrange(length - 2, length)
+        parts = [[s, length], [0, e]]
+        if rng.random() < 0.7:
+            first = rng.randrange(length // 2 + 1, s - 2)
+            parts.insert(0, [first, rng.randrange(first + 1, s - 1)])
+        if rng.random() < 0.7 or len(parts) == 2:
+            last = rng.randrange(e + 3, length // 2)
+            parts.append([rng.randrange(e + 2, last), last])
+    elif kind < 0.75 and circ:
         s = rng.randrange(1, length)
         e = rng.randrange(1, s + 1)
         parts = [[s, length], [0, e]]
